@@ -42,20 +42,28 @@ def discover(m, partial=False):
 def _discover(m, r):
     r.engine = m.one_func("run_function_on_graph", "ENGINE")
     e = r.engine
-    # POOL: context manager entered by ENGINE that (transitively) constructs threading.Thread
+    # LIFECYCLE: the engine starts its worker threads itself.  A thread-pool context manager it enters has been inlined at the
+    # `with` (canon.inline_thread_pool_withs, applied to every variant): start, release and join are statements of ENGINE.
     thread_creators = {c[0] for c in m.thread_targets}
-    pools = []
-    for n in e.own_nodes():
-        if isinstance(n, ast.With):
-            for it in n.items:
-                if isinstance(it.context_expr, ast.Call):
-                    for f in m.callee_funcs(e, it.context_expr):
-                        if f.is_contextmanager and m.reachable([f], kinds=("call",)) & thread_creators:
-                            pools.append((n, it.context_expr, f))
-    if len(pools) != 1:
-        raise AnalysisError(f"role POOL: expected one thread-pool context manager entered by {e.qualname}, found {len(pools)}")
-    r.pool_with, r.pool_call, r.pool = pools[0]
-    reach_pool = m.reachable([r.pool], kinds=("call",))
+    r.start_calls = [c for c in e.own_calls()
+                     if {f for f in m.callee_funcs(e, c)} and (m.reachable(list(m.callee_funcs(e, c)), kinds=("call",)) & thread_creators)]
+    if e in thread_creators:
+        r.start_calls += [call for (c, call, tg) in m.thread_targets if c is e and call not in r.start_calls]
+    if not r.start_calls:
+        split = []
+        for n in e.own_nodes():
+            if isinstance(n, ast.With):
+                for it in n.items:
+                    if isinstance(it.context_expr, ast.Call):
+                        for f in m.callee_funcs(e, it.context_expr):
+                            if m.reachable([f], kinds=("call",)) & thread_creators:
+                                split.append(f.qualname)
+        if split:
+            raise AnalysisError(f"role LIFECYCLE: {e.qualname} starts its threads through the context manager {sorted(set(split))}, "
+                                f"which could not be inlined at the with statement (not a single-yield generator of the same module)")
+        raise AnalysisError(f"role LIFECYCLE: {e.qualname} starts no thread")
+    r.pool = e  # the function that owns the thread life cycle
+    reach_pool = m.reachable([e], kinds=("call",))
     r.thread_sites = [(c, call, tg) for (c, call, tg) in m.thread_targets if c in reach_pool]
     loops = set()
     for _c, _call, tg in r.thread_sites:
@@ -63,7 +71,7 @@ def _discover(m, r):
             if o[0] in ("func", "bound"):
                 loops.add(o[1])
     if len(loops) != 1:
-        raise AnalysisError(f"role WORKERLOOP: expected one thread target below {r.pool.qualname}, found {sorted(f.qualname for f in loops)}")
+        raise AnalysisError(f"role WORKERLOOP: expected one thread target below {e.qualname}, found {sorted(f.qualname for f in loops)}")
     r.loop = next(iter(loops))
     # NODECB: closure of ENGINE called from the worker loop
     cbs = set()
@@ -1224,12 +1232,14 @@ def rule_first_error(ctx, rid, r):
     ok = len(conds) == 1 and cond_set(conds, r.firsterr)
     ctx.ob(rid, f"{e.short}/raise-recorded", ok, loc(e, rs), "engine raises the recorded error when set" if ok else
            "raise of the recorded error is guarded by something else than the cell itself", norm(rs))
-    top = e.node.body
-    iw = [i for i, s in enumerate(top) if s is r.pool_with]
-    ir = [i for i, s in enumerate(top) if s is rs or inside(e.module, rs, s)]
-    ok = bool(iw and ir) and ir[0] > iw[0] and not any(isinstance(n, ast.Return) for s in top[iw[0]:ir[0]] for n in ast.walk(s))
-    ctx.ob(rid, f"{e.short}/raise-after-pool", ok, loc(e, rs), "raised after the pool has drained, no return in between" if ok
-           else "the recorded error can be skipped (return before the raise, or raise not after the pool)", norm(rs))
+    lc = lifecycle(m, r)
+    g = lc.g
+    guard = [p for p in _anc(e.module, rs) if isinstance(p, ast.If)]
+    gate = set(g.of(guard[-1])) if guard else set(g.of(rs))
+    ok = bool(lc.join_heads) and all(g.dominates(lc.join_heads, rn) for rn in g.of(rs)) and bool(g.of(rs)) \
+        and all(g.must_pass(qn, gate, exits={g.exit}, first_labels={"n"}) for qn in lc.qjoin_nodes)
+    ctx.ob(rid, f"{e.short}/raise-after-pool", ok, loc(e, rs), "raised after the workers are joined; no normal return passes it by" if ok
+           else "the recorded error can be skipped (a normal return that does not pass the raise) or is raised before the workers are joined", norm(rs))
 
 
 def rule_coerce(ctx, rid, m, caller, call):
@@ -1298,64 +1308,117 @@ def _range_arg(n):
     return None
 
 
-def rule_sentinels(ctx, rid, r):
-    m = ctx.model
-    e, pool, lp = r.engine, r.pool, r.loop
-    # thread creation loop in POOL
-    creators = set()
-    for c, call, tg in r.thread_sites:
-        creators.add(c)
-    spawn_loops = []
-    for n in pool.own_nodes():
-        if isinstance(n, ast.For):
-            for c in ast.walk(n):
-                if isinstance(c, ast.Call) and c in pool.own_calls() and (m.reachable(list(m.callee_funcs(pool, c)), kinds=("call",)) & creators):
-                    spawn_loops.append(n)
-                    break
-    ok = len(spawn_loops) == 1 and _range_arg(spawn_loops[0]) is not None and isinstance(_range_arg(spawn_loops[0]), ast.Name) \
-        and _range_arg(spawn_loops[0]).id in pool.params
-    ctx.ob(rid, f"{pool.short}/spawn-count", ok, loc(pool), "threads are started in one loop over range(<pool parameter>)" if ok
-           else "thread creation is not a single `for _ in range(<parameter>)` loop")
-    if not ok:
-        return
-    count_param = _range_arg(spawn_loops[0]).id
-    # value bound to that parameter at the ENGINE's with
-    idx = pool.pos_params.index(count_param) if count_param in pool.pos_params else None
-    bound = arg(r.pool_call, idx, count_param)
-    # sentinel loop
-    sloops = []
+class _LC:
+    pass
+
+
+def lifecycle(m, r):
+    """Thread life cycle of the engine as CFG node sets (the pool context manager, if there is one, is inlined): where threads are
+    started, where queue.join() waits, where the stop flag is set, where the sentinels are posted, where the threads are joined."""
+    lc = getattr(r, "_lifecycle", None)
+    if lc is not None:
+        return lc
+    e = r.engine
+    mod = e.module
+    lc = _LC()
+    lc.g = g = CFG(e, may_raise=any_call_may_raise)
+    lc.start_stmts = [stmt_of(mod, c) for c in r.start_calls]
+    lc.spawn_loops = []
+    for n in e.own_nodes():
+        if isinstance(n, ast.For) and any(inside(mod, c, n) for c in r.start_calls) and n not in lc.spawn_loops:
+            lc.spawn_loops.append(n)
+    lc.sent_loops = []
     for n in e.own_nodes():
         if isinstance(n, ast.For) and any(c in r.sentinel_puts for c in ast.walk(n) if isinstance(c, ast.Call)):
-            sloops.append(n)
+            lc.sent_loops.append(n)
+    lc.sent_heads = set()
+    for n in lc.sent_loops:
+        lc.sent_heads |= set(g.of(n))
+    for c in r.sentinel_puts:
+        if not any(inside(mod, c, n) for n in lc.sent_loops):
+            lc.sent_heads |= set(g.of(stmt_of(mod, c)))
+    lc.stop_sets = set()
+    if r.stop:
+        for n in e.own_nodes():
+            if isinstance(n, ast.Assign) and any(is_name(t, r.stop) for t in n.targets) and const(n.value, None) is True:
+                lc.stop_sets |= set(g.of(n))
+    joins = [c for c in e.own_calls() if isinstance(c.func, ast.Attribute) and c.func.attr == "join" and c is not r.join_call]
+    tj = [c for c in joins if "threading.Thread.join" in ext_names(m, e, c)]
+    if not tj:
+        # by shape: the receiver iterates a list (not the queue, not a string)
+        tj = [c for c in joins if not (ext_names(m, e, c) & {"queue.Queue.join", "str.join"}) and not isinstance(c.func.value, ast.Constant)]
+    lc.thread_joins = tj
+    lc.join_loops = {}
+    for j in tj:
+        fl = [n for n in e.own_nodes() if isinstance(n, ast.For) and inside(mod, j, n)]
+        if fl and isinstance(fl[-1].iter, ast.Name) and isinstance(j.func.value, ast.Name) and norm(fl[-1].target) == j.func.value.id:
+            lc.join_loops[j] = fl[-1]
+    lc.join_heads = set()
+    for j, loop in lc.join_loops.items():
+        lc.join_heads |= set(g.of(loop))
+    lc.join_nodes = set()
+    for j in tj:
+        lc.join_nodes |= set(g.of(stmt_of(mod, j)))
+    lc.qjoin = stmt_of(mod, r.join_call)
+    lc.qjoin_nodes = list(g.of(lc.qjoin))
+    r._lifecycle = lc
+    return lc
+
+
+def rule_sentinels(ctx, rid, r):
+    m = ctx.model
+    e, lp = r.engine, r.loop
+    lc = lifecycle(m, r)
+    g = lc.g
+    # thread creation loop
+    sp = lc.spawn_loops
+    ok = len(sp) == 1 and _range_arg(sp[0]) is not None and isinstance(_range_arg(sp[0]), ast.Name)
+    ctx.ob(rid, f"{e.short}/spawn-count", ok, loc(e), "threads are started in one loop over range(<name>)" if ok
+           else "thread creation is not a single `for _ in range(<name>)` loop")
+    if not ok:
+        return
+    bound = _range_arg(sp[0])
+    # sentinel loop
+    sloops = lc.sent_loops
     ok = len(sloops) == 1 and _range_arg(sloops[0]) is not None
     ctx.ob(rid, f"{e.short}/sentinel-loop", ok, loc(e), "sentinels are posted in one loop over range(N)" if ok else
            "sentinels are not posted in a single range loop")
     if not ok:
         return
     sl = sloops[0]
-    n1, n2 = norm(bound) if bound is not None else None, norm(_range_arg(sl))
-    same = n1 is not None and n1 == n2 and isinstance(bound, ast.Name)
+    n1, n2 = norm(bound), norm(_range_arg(sl))
+    same = n1 == n2
     if same:
-        # no reassignment of that name between the two uses: all assignments precede the pool with
+        # no reassignment of that name between the two uses: all assignments precede the start of the first thread
         asg = [b for b in e.bindings.get(bound.id, []) if b[0] in ("assign", "aug")]
         for kind, expr, _p in asg:
             st = stmt_of(e.module, expr)
-            if not (comes_before(e.node, st, r.pool_with) and not inside(e.module, st, r.pool_with)):
+            if not (comes_before(e.node, st, sp[0]) and not inside(e.module, st, sp[0])):
                 same = False
+        if any(bound.id in g_.nonlocals for g_ in e.all_nested()):
+            same = False
     ctx.ob(rid, f"{e.short}/sentinels==threads", same, loc(e, sl),
-           f"pool size and sentinel count are the same value `{n1}`" if same else
-           f"pool is sized by `{n1}` but `{n2}` sentinels are posted: with a different number some workers never exit "
+           f"number of threads and sentinel count are the same value `{n1}`" if same else
+           f"`{n1}` threads are started but `{n2}` sentinels are posted: with a different number some workers never exit "
            f"(run hangs) or sentinels are left over", head(sl))
-    # sentinel loop is in the finally of the try whose body joins the queue
-    tries = [t for t in e.own_nodes() if isinstance(t, ast.Try) and in_body(e.module, sl, t, "finalbody")]
-    ok = bool(tries) and any(in_body(e.module, stmt_of(e.module, r.join_call), t, "body") for t in tries)
+    # one sentinel per iteration, unconditionally
+    puts_plain = all(stmt_of(e.module, c) in sl.body for c in r.sentinel_puts if inside(e.module, c, sl))
+    ctx.ob(rid, f"{e.short}/sentinel-each-iteration", puts_plain, loc(e, sl), "every iteration of the loop posts one sentinel" if puts_plain else
+           "the sentinel is posted under a condition inside the loop", head(sl))
+    # every path from queue.join() - normal return or exception - to an exit of the engine posts the sentinels
+    ok, wit = True, ""
+    for qn in lc.qjoin_nodes:
+        if not g.must_pass(qn, lc.sent_heads):
+            ok = False
+            wit = g.fmt_path(g.path(qn, {g.exit, g.raise_exit}, avoid=lc.sent_heads))
+    ok = ok and bool(lc.qjoin_nodes)
     ctx.ob(rid, f"{e.short}/release-in-finally", ok, loc(e, sl),
-           "sentinels are posted in the finally of the try that joins the queue" if ok else
-           "sentinels are not posted in a finally covering queue.join(): an interrupt leaves the workers blocked forever",
-           head(sl))
-    ok2 = inside(e.module, stmt_of(e.module, r.join_call), r.pool_with)
-    ctx.ob(rid, f"{e.short}/join-inside-pool", ok2, loc(e, r.join_call), "queue.join() runs inside the pool context" if ok2 else
-           "queue.join() is outside the pool context", norm(r.join_call))
+           "on every path from queue.join() (normal or exceptional) to an exit of the engine the sentinels are posted" if ok else
+           "queue.join() can be left (e.g. by an interrupt) on a path that does not post the sentinels: the workers stay blocked forever",
+           head(sl), wit)
+    ok2 = bool(lc.qjoin_nodes) and all(g.dominates({n for l_ in sp for n in g.of(l_)}, qn) for qn in lc.qjoin_nodes)
+    ctx.ob(rid, f"{e.short}/join-inside-pool", ok2, loc(e, r.join_call), "queue.join() waits after the workers have been started" if ok2 else
+           "queue.join() can be reached without the workers having been started", norm(r.join_call))
     # worker loop exits only through the sentinel branch, and exits then (path formulation: robust to `return` vs flag)
     g = CFG(lp, may_raise=lambda n: False)
     gets = [c for c in lp.own_calls() if ext_names(m, lp, c) & GET]
@@ -1383,33 +1446,17 @@ def rule_sentinels(ctx, rid, r):
 
 # ------------------------------------------------------------------------------------------------ C07.L4
 def rule_pool_joins(ctx, rid, r):
+    """From every statement that starts a thread, every path to an exit of the engine - normal end, or any exception at the
+    start, while waiting, or later - passes a loop that joins the list the started threads are appended to."""
     m = ctx.model
-    pool = r.pool
+    pool = r.engine
     mod = pool.module
-    ys = [n for n in pool.own_nodes() if isinstance(n, ast.Yield)]
-    ok = len(ys) == 1
-    ctx.ob(rid, f"{pool.short}/one-yield", ok, loc(pool), f"{len(ys)} yields")
-    if not ok:
-        return
-    y = stmt_of(mod, ys[0])
-    joins = [c for c in pool.own_calls() if isinstance(c.func, ast.Attribute) and c.func.attr == "join"
-             and "threading.Thread.join" in ext_names(m, pool, c)]
-    if not joins:
-        # fall back on name: receiver iterates the list the threads were appended to
-        joins = [c for c in pool.own_calls() if isinstance(c.func, ast.Attribute) and c.func.attr == "join"]
-    ctx.floor(rid, "thread join sites in the pool", len(joins), 1)
-    # path formulation (robust to where the joins are written): from every statement that starts a thread, every path
-    # to an exit of the pool - normal end, or any exception at the spawn, in the with-body (the yield) or later -
-    # passes a loop that joins the list the started threads are appended to
-    g = CFG(pool, may_raise=any_call_may_raise)
-    starters = [c for c in pool.own_calls() if m.reachable(list(m.callee_funcs(pool, c)), kinds=("call",)) & {t[0] for t in r.thread_sites}]
-    ctx.floor(rid, "thread start sites in the pool", len(starters), 1)
-    join_loops = {}
-    for j in joins:
-        fl = [n for n in pool.own_nodes() if isinstance(n, ast.For) and inside(mod, j, n)]
-        if fl and isinstance(fl[0].iter, ast.Name) and isinstance(j.func.value, ast.Name) and norm(fl[0].target) == j.func.value.id:
-            join_loops[j] = fl[0]
-    for sc in starters:
+    lc = lifecycle(m, r)
+    g = lc.g
+    joins = lc.thread_joins
+    ctx.floor(rid, "thread join sites in the engine", len(joins), 1)
+    ctx.floor(rid, "thread start sites in the engine", len(r.start_calls), 1)
+    for sc in r.start_calls:
         st = stmt_of(mod, sc)
         # the list this thread is appended to
         lst = None
@@ -1423,7 +1470,7 @@ def rule_pool_joins(ctx, rid, r):
         if not ok_l:
             continue
         through = set()
-        for j, loop in join_loops.items():
+        for j, loop in lc.join_loops.items():
             if loop.iter.id == lst and not j.args and not j.keywords:
                 # the loop header node: reaching it means the join loop runs over the whole list
                 guards = [pn for pn in ast.walk(pool.node) if isinstance(pn, ast.If) and inside(mod, j, pn) and inside(mod, pn, loop)]
@@ -1437,21 +1484,22 @@ def rule_pool_joins(ctx, rid, r):
                     ok = False
                     witness = g.fmt_path(g.path(sn, {g.exit, g.raise_exit}, avoid=through))
         ctx.ob(rid, f"{pool.short}/join-in-finally", ok, loc(pool, sc),
-               "on every path from a thread start to an exit of the pool (normal or exceptional) the workers are joined" if ok else
-               "join is not in a finally covering the yield: on an exception in the body the threads are abandoned "
-               "(a path from a thread start leaves the pool without joining the started threads)", norm(st), witness)
+               "on every path from a thread start to an exit of the engine (normal or exceptional) the workers are joined" if ok else
+               "the workers are not joined on every path: on an exception while waiting the threads are abandoned "
+               "(a path from a thread start leaves the engine without joining the started threads)", norm(st), witness)
     for j in joins:
         ok = not j.args and not j.keywords
         ctx.ob(rid, f"{pool.short}/join-no-timeout", ok, loc(pool, j), "join() without timeout" if ok else
                "join with a timeout can return while the worker still runs", norm(j))
-        tries = [t for t in pool.own_nodes() if isinstance(t, ast.Try) and in_body(mod, j, t, "finalbody")]
-        guards = [p for t in tries for p in ast.walk(t) if isinstance(p, ast.If) and in_body(mod, p, t, "finalbody") and inside(mod, j, p)]
+        guards = [p for p in _anc(mod, j) if isinstance(p, ast.If) and not any(inside(mod, sc, p) for sc in r.start_calls)]
         ctx.ob(rid, f"{pool.short}/join-unconditional", not guards, loc(pool, j),
-               "the join in the finally is unconditional" if not guards else
+               "the join is unconditional" if not guards else
                f"the join is skipped under `if {norm(guards[0].test)[:40]}`: on that path (e.g. KeyboardInterrupt) run returns while calls "
                f"and store writes are still in flight", head(guards[0]) if guards else "")
     # thread helper starts and returns the thread (not daemon-and-forget)
     for c, call, tg in r.thread_sites:
+        if c is pool:
+            continue
         starts = [x for x in c.own_calls() if "threading.Thread.start" in ext_names(m, c, x)]
         ctx.ob(rid, f"{c.short}/thread-started-and-returned", len(starts) == 1 and any(isinstance(n, ast.Return) and n.value is not None for n in c.own_nodes()),
                loc(c, call), "thread is started once and handed back for joining")
@@ -1459,43 +1507,37 @@ def rule_pool_joins(ctx, rid, r):
 
 # ------------------------------------------------------------------------------------------------ C17.K6
 def rule_startup_interrupt(ctx, rid, r):
-    """An exception raised on the calling thread *while the pool is starting its workers* (KeyboardInterrupt in the start
+    """An exception raised on the calling thread *while the workers are being started* (KeyboardInterrupt in the start
     loop - the first worker is already executing calls then - or a failing Thread.start) must release the workers that
-    were started before they are joined: on every path from the exceptional out-edge of a thread start to the join
-    loop, the stop flag is set / the sentinels are posted (directly or through a callback handed to the pool)."""
+    were started before they are joined: on every path from the exceptional out-edge of a thread start (or of the loop
+    header) to the join loop or an exit, the stop flag is set and the sentinels are posted."""
     m = ctx.model
-    pool = r.pool
-    mod = pool.module
-    g = CFG(pool, may_raise=any_call_may_raise)
-    creators = {t[0] for t in r.thread_sites}
-    starters = [c for c in pool.own_calls() if m.reachable(list(m.callee_funcs(pool, c)), kinds=("call",)) & creators]
-    joins = [c for c in pool.own_calls() if isinstance(c.func, ast.Attribute) and c.func.attr == "join"]
-    jn = set()
-    for j in joins:
-        jn |= set(g.of(stmt_of(mod, j)))
-    release = set()
-    for c in pool.own_calls():
-        posts = bool(ext_names(m, pool, c) & PUT)
-        callback = isinstance(c.func, ast.Name) and c.func.id in pool.params
-        if posts or callback:
-            release |= set(g.of(stmt_of(mod, c)))
-    ctx.floor(rid, "thread start sites in the pool", len(starters), 1)
-    for sc in starters:
-        st = stmt_of(mod, sc)
-        bad = set()
+    e = r.engine
+    lc = lifecycle(m, r)
+    g = lc.g
+    ctx.floor(rid, "thread start sites in the engine", len(r.start_calls), 1)
+    goals = lc.join_nodes | lc.join_heads | {g.exit, g.raise_exit}
+    sites = list(lc.start_stmts) + [l_ for l_ in lc.spawn_loops]
+    bad, bad_stop, p = set(), set(), ""
+    for st in sites:
         for sn in g.of(st):
-            # the start loop itself: an exception at the loop header or at the start of a later worker
-            bad |= g.reach([sn], avoid=release, first_labels={"e"}) & jn
-        p = ""
-        if bad:
-            p = g.fmt_path(g.path(g.of(st)[0], bad, avoid=release, first_labels={"e"}))
-        # keyed by role, not by the pool's current name/spelling: the same defect in a renamed or restructured pool is the same finding
-        ctx.ob(rid, "POOL/startup-interrupt-releases-workers", not bad, loc(pool, sc),
-               "an exception while the workers are being started releases the ones already running before joining them" if not bad else
-               "an exception on the calling thread while the pool is still starting workers (Ctrl-C during the first call, or a failing "
-               "Thread.start) goes straight to joining the workers already started: nothing has set the stop flag or posted the "
-               "sentinels, so those workers run every remaining call and then block in queue.get() forever - run() never returns",
-               "", p)
+            # an exception at the loop header or at the start of a later worker
+            b_ = g.reach([sn], avoid=lc.sent_heads, first_labels={"e"}) & goals
+            if b_ and not bad:
+                p = g.fmt_path(g.path(sn, b_, avoid=lc.sent_heads, first_labels={"e"}))
+            bad |= b_
+            bad_stop |= g.reach([sn], avoid=lc.stop_sets, first_labels={"e"}) & goals
+    # keyed by role, not by the current name/spelling: the same defect in a renamed or restructured engine is the same finding
+    ctx.ob(rid, "POOL/startup-interrupt-releases-workers", not bad, loc(e, r.start_calls[0]),
+           "an exception while the workers are being started posts the sentinels for the ones already running before joining them" if not bad else
+           "an exception on the calling thread while the workers are still being started (Ctrl-C during the first call, or a failing "
+           "Thread.start) goes straight to joining the workers already started: nothing has posted the "
+           "sentinels, so those workers run every remaining call and then block in queue.get() forever - run() never returns",
+           "", p)
+    ctx.ob(rid, "POOL/startup-interrupt-sets-stop", not bad_stop, loc(e, r.start_calls[0]),
+           "an exception while the workers are being started sets the stop flag before the started ones are joined" if not bad_stop else
+           "an exception on the calling thread while the workers are still being started does not set the stop flag: the workers already "
+           "started keep starting queued calls (all of them under the cheap / random schedulers, where the sentinel has no priority)")
 
 
 # ------------------------------------------------------------------------------------------------ C07.L7
@@ -1610,7 +1652,8 @@ def rule_cycle_check_first(ctx, rid, r):
     if not ok:
         return
     cn = set(g.of(stmt_of(e.module, checks[0])))
-    for target, what in ((r.pool_with, "thread creation"), (stmt_of(e.module, r.prep_call), "node preparation")):
+    targets = [(st_, "thread creation") for st_ in lifecycle(m, r).start_stmts] + [(stmt_of(e.module, r.prep_call), "node preparation")]
+    for target, what in targets:
         for tn in g.of(target):
             if tn.kind in ("with_exit",):
                 continue
@@ -1759,39 +1802,36 @@ def _anc(mod, n):
 
 # ------------------------------------------------------------------------------------------------ C17.K1
 def rule_interrupt_cleanup(ctx, rid, r):
+    """KeyboardInterrupt out of queue.join(): on every path from its exceptional out-edge the stop flag is set, then the sentinels are
+    posted, then the workers are joined (rule L4); no handler on the way absorbs the interrupt."""
     m = ctx.model
     e = r.engine
-    js = stmt_of(e.module, r.join_call)
-    tries = [t for t in e.own_nodes() if isinstance(t, ast.Try) and in_body(e.module, js, t, "body") and t.finalbody]
-    ok = bool(tries)
+    lc = lifecycle(m, r)
+    g = lc.g
+    js = lc.qjoin
+    exits = {g.exit, g.raise_exit}
+    ok, wit = bool(lc.qjoin_nodes) and bool(lc.sent_heads), ""
+    for qn in lc.qjoin_nodes:
+        if not g.must_pass(qn, lc.sent_heads, first_labels={"e"}):
+            ok = False
+            wit = g.fmt_path(g.path(qn, exits, avoid=lc.sent_heads, first_labels={"e"}))
     ctx.ob(rid, f"{e.short}/join-in-try-finally", ok, loc(e, r.join_call),
-           "queue.join() is the body of a try with a finally" if ok else "queue.join() has no finally: Ctrl-C skips the cleanup", norm(js))
+           "an exception out of queue.join() reaches the posting of the sentinels on every path" if ok else
+           "queue.join() has no cleanup on its exceptional exit: Ctrl-C leaves the workers blocked / running", norm(js), wit)
     if not ok:
         return
-    t = tries[-1]
-    sets_stop = any(isinstance(n, ast.Assign) and any(is_name(x, r.stop) for x in n.targets) and const(n.value) is True
-                    for s in t.finalbody for n in ast.walk(s)) if r.stop else False
-    ctx.ob(rid, f"{e.short}/finally-sets-stop", sets_stop, loc(e, t), "the finally sets the stop flag" if sets_stop else
-           "the finally does not set the stop flag: queued calls keep starting after Ctrl-C")
-    posts = any(c in r.sentinel_puts for s in t.finalbody for c in ast.walk(s) if isinstance(c, ast.Call))
-    ctx.ob(rid, f"{e.short}/finally-posts-sentinels", posts, loc(e, t), "the finally posts the sentinels" if posts else
-           "the finally does not post the sentinels: workers never exit after Ctrl-C")
-    # stop set before the sentinels are posted
-    if sets_stop and posts:
-        order = []
-        for s in t.finalbody:
-            if any(isinstance(n, ast.Assign) and any(is_name(x, r.stop) for x in n.targets) for n in ast.walk(s)):
-                order.append("stop")
-            if any(c in r.sentinel_puts for c in ast.walk(s) if isinstance(c, ast.Call)):
-                order.append("post")
-        ctx.ob(rid, f"{e.short}/stop-before-sentinels", order[:1] == ["stop"], loc(e, t), "stop flag set before sentinels are posted")
+    sets_stop = bool(lc.stop_sets) and all(g.must_pass(qn, lc.stop_sets, exits=exits | lc.sent_heads, first_labels={"e"}) for qn in lc.qjoin_nodes)
+    ctx.ob(rid, f"{e.short}/finally-sets-stop", sets_stop, loc(e, js),
+           "the stop flag is set on every path from an interrupted queue.join() before the sentinels are posted" if sets_stop else
+           "the stop flag is not set (before the sentinels are posted) when queue.join() is interrupted: queued calls keep starting after Ctrl-C")
     # no handler on the join swallows the interrupt
-    for h in t.handlers:
-        reraises = any(isinstance(n, ast.Raise) and n.exc is None for n in ast.walk(h))
-        wide = handler_catches_all(h) or any(c in ("KeyboardInterrupt",) for c in handler_classes(h))
-        ctx.ob(rid, f"{e.short}/join-handler", (not wide) or reraises, loc(e, h),
-               "handler on join() does not swallow KeyboardInterrupt" if (not wide) or reraises else
-               "a handler around queue.join() swallows KeyboardInterrupt", head(h))
+    for t in [t for t in e.own_nodes() if isinstance(t, ast.Try) and in_body(e.module, js, t, "body")]:
+        for h in t.handlers:
+            reraises = any(isinstance(n, ast.Raise) and n.exc is None for n in ast.walk(h))
+            wide = handler_catches_all(h) or any(c in ("KeyboardInterrupt",) for c in handler_classes(h))
+            ctx.ob(rid, f"{e.short}/join-handler", (not wide) or reraises, loc(e, h),
+                   "handler on join() does not swallow KeyboardInterrupt" if (not wide) or reraises else
+                   "a handler around queue.join() swallows KeyboardInterrupt", head(h))
 
 
 # ------------------------------------------------------------------------------------------------ C16: what the engine keeps of failures
